@@ -211,6 +211,11 @@ pub fn run(args: &[String]) {
                     let ings: Vec<usize> = o["ings"].as_array().unwrap().iter().map(|x| x.as_u64().unwrap() as usize).collect();
                     let arch = o["arch"].as_u64().unwrap_or(0);
                     let with_thumb = (vid + oi) % 2 == 1;
+                    // compressed manifests and the signing algorithm vary independently of the other choices
+                    let compress = ((vid.wrapping_mul(40503) >> 3) ^ oi) % 3 == 0;
+                    let salg = ["ed25519", "es256", "ps256", "es384"][((vid.wrapping_mul(69069) >> 5) ^ oi) % 4];
+                    let mut sj = settings_json();
+                    if compress { sj["core"] = json!({"prefer_compress_manifests": true}); }
                     let res = catch(AssertUnwindSafe(|| -> Result<(Vec<u8>, Vec<Value>), String> {
                         let rel_of = |k: usize| if k == 0 { "parentOf" } else if (vid + k) % 2 == 0 { "componentOf" } else { "inputTo" };
                         let mut actions: Vec<Value> = vec![];
@@ -224,7 +229,10 @@ pub fn run(args: &[String]) {
                         let mut def = json!({"title": title, "format": mime, "claim_generator_info": [cgi],
                             "assertions": [{"label": "c2pa.actions", "data": {"actions": actions}}, {"label": "org.vh.test", "data": {"k": idx}}]});
                         if with_thumb { def["thumbnail"] = json!({"format": "image/jpeg", "identifier": "thumb.jpg"}); }
-                        let mut b = Builder::from_context(ctx(&settings_json())).with_definition(def.to_string().as_str()).map_err(|e| format!("definition:{}", err_kind(&e)))?;
+                        // the claim's hash algorithm varies independently of the other choices
+                        let halg = ["sha256", "sha384", "sha256", "sha512"][((vid.wrapping_mul(2654435761) >> 7) ^ oi) % 4];
+                        if halg != "sha256" { def["hash_alg"] = json!(halg); }
+                        let mut b = Builder::from_context(ctx(&sj)).with_definition(def.to_string().as_str()).map_err(|e| format!("definition:{}", err_kind(&e)))?;
                         if with_thumb { b.add_resource("thumb.jpg", Cursor::new(fixture("thumbnail.jpg"))).map_err(|e| format!("resource:{}", err_kind(&e)))?; }
                         if with_icon { b.add_resource("icon.jpg", Cursor::new(fixture("thumbnail.jpg"))).map_err(|e| format!("resource:{}", err_kind(&e)))?; }
                         let mut facts = vec![];
@@ -236,7 +244,7 @@ pub fn run(args: &[String]) {
                             // original (it carries that import's validation results): the stream, not the JSON, must decide
                             if *a > 0 && (vid + k) % 3 == 0 {
                                 let from = lib[*a - 1].clean_of.unwrap_or(*a);
-                                let mut b0 = Builder::from_context(ctx(&settings_json())).with_definition(simple_manifest_json("scratch", "image/jpeg").to_string().as_str()).map_err(|e| format!("definition:{}", err_kind(&e)))?;
+                                let mut b0 = Builder::from_context(ctx(&sj)).with_definition(simple_manifest_json("scratch", "image/jpeg").to_string().as_str()).map_err(|e| format!("definition:{}", err_kind(&e)))?;
                                 let mut s0 = Cursor::new(lib[from - 1].bytes.clone());
                                 if let Ok(ing0) = b0.add_ingredient_from_stream(ijv.to_string(), lib[from - 1].mime, &mut s0) {
                                     if let Ok(mut kept) = serde_json::to_value(&*ing0) {
@@ -255,15 +263,15 @@ pub fn run(args: &[String]) {
                             let mut z = Cursor::new(Vec::new());
                             b.to_archive(&mut z).map_err(|e| format!("to_archive:{:?}", e))?;
                             z.set_position(0);
-                            b = Builder::from_context(ctx(&settings_json())).with_archive(z).map_err(|e| format!("with_archive:{:?}", e))?;
+                            b = Builder::from_context(ctx(&sj)).with_archive(z).map_err(|e| format!("with_archive:{:?}", e))?;
                         }
                         let mut src = Cursor::new(fixture(fx));
                         let mut dst = Cursor::new(Vec::new());
                         if fl == "async" {
-                            let s = AsyncWrap(signer("ed25519"));
+                            let s = AsyncWrap(signer(salg));
                             rt.block_on(b.sign_async(&s, mime, &mut src, &mut dst)).map_err(|e| format!("sign:{:?}", e))?;
                         } else {
-                            let s = signer("ed25519");
+                            let s = signer(salg);
                             b.sign(s.as_ref(), mime, &mut src, &mut dst).map_err(|e| format!("sign:{:?}", e))?;
                         }
                         Ok((dst.into_inner(), facts))
